@@ -50,6 +50,7 @@ Fixpoint cpulls (d : nat) (nd : cnode) : nat :=
   end.
 
 Variable enc : Smp -> Z.
+Variable eqs : Smp -> Smp -> bool.
 
 Fixpoint crun_calls (d : nat) (nd : cnode) (out : bufs) (calls : list (bop * list bufs)) : list (list Z) :=
   match calls with
@@ -58,7 +59,8 @@ Fixpoint crun_calls (d : nat) (nd : cnode) (out : bufs) (calls : list (bop * lis
     match cprocess d nd inputs (apply_bop zero op out) with
     | Ok (nd', out') =>
       [9%Z; Z.of_nat (length out')] :: map (map enc) out'
-        ++ [7%Z; Z.of_nat (cpulls d nd')] :: crun_calls d nd' (match op with BTake => out | _ => out' end) t
+        ++ [7%Z; Z.of_nat (cpulls d nd')] :: cmp_obs eqs op (apply_bop zero op out) out'
+        ++ crun_calls d nd' (match op with BTake => out | _ => out' end) t
     | Panic k => [[8%Z; Z.of_nat (panic_code k)]]
     | UB => [[(-2)%Z]]
     end
@@ -110,10 +112,10 @@ End ConvG.
 Definition run_gcase (c : zgcase) : list (list Z) :=
   let '(GCase nd out0 calls) := c in
   if zc_float nd then
-    crun_calls F32.zero F32.add F32.bits (zdepth nd) (to_cnode F32.of_bits nd)
+    crun_calls F32.zero F32.add F32.bits F32.eqb (zdepth nd) (to_cnode F32.of_bits nd)
       (map (map F32.of_bits) out0) (map (fun c => (to_bop (fst c), map (map (map F32.of_bits)) (snd c))) calls)
   else
-    crun_calls 0%Z Z.add (fun z => z) (zdepth nd) (to_cnode (fun z => z) nd) out0
+    crun_calls 0%Z Z.add (fun z => z) bits_eqb (zdepth nd) (to_cnode (fun z => z) nd) out0
       (map (fun c => (to_bop (fst c), snd c)) calls).
 
 Definition gcheck (c : zgcase * list (list Z)) : bool := zll_eqb (run_gcase (fst c)) (snd c).
